@@ -130,8 +130,14 @@ fn name_is_safe(n: &str) -> bool {
 
 fn gen_xname(r: &mut Rng, used: &[String]) -> String {
     let w = gen_word(r);
-    match r.below(30) {
+    match r.below(36) {
         0 => format!("../{w}"),
+        29 | 30 | 31 | 32 => {
+            // any sequence of up to 6 components from {normal, '.', '..', ''} with optional leading slash
+            let n = r.range(1, 6);
+            let comps: Vec<String> = (0..n).map(|_| match r.below(6) { 0 => ".".to_string(), 1 | 2 => "..".to_string(), 3 => String::new(), _ => gen_word(r) }).collect();
+            format!("{}{}{}", if r.chance(1, 8) { "/" } else { "" }, comps.join("/"), if r.chance(1, 8) { "/" } else { "" })
+        }
         24 => "../sibling".into(),
         25 => "../sibling_dir/inner".into(),
         26 => "../sibling_dir".into(),
